@@ -50,9 +50,11 @@ theorem propagateInline_total (sel : BackendSel) (ctx : NodeCtx) (g : List Strin
   · by_cases h2 : sel = .none
     · exact ⟨[], by simp [propagateInline, h1, h2, Variant.fixed]⟩
     · have h2' : (sel == BackendSel.none) = false := by simpa using h2
-      cases hc : convertInline sel feed (g.zip ctx.outputs) with
-      | ok rs => exact ⟨dictOf rs, by simp [propagateInline, h1, h2', hfeed, hc]⟩
-      | error e => exact ⟨[], by simp [propagateInline, h1, h2', hfeed, hc, Variant.fixed]⟩
+      by_cases h3 : ctx.hasSubgraph = true
+      · exact ⟨[], by simp [propagateInline, h1, h2', h3]⟩
+      · cases hc : convertInline sel feed (g.zip ctx.outputs) with
+        | ok rs => exact ⟨dictOf rs, by simp [propagateInline, h1, h2', h3, hfeed, hc]⟩
+        | error e => exact ⟨[], by simp [propagateInline, h1, h2', h3, hfeed, hc, Variant.fixed]⟩
 
 theorem propagate_total (sel : BackendSel) (k : Kind) (ctx : NodeCtx) (b : Backend)
     (hb : Backend.raisesOnlyExceptions b) :
